@@ -10,7 +10,14 @@ ADDRS = ["98.51.100.10", "98.51.100.200", "98.51.101.5", "98.77.0.1", "10.1.2.3"
 
 
 def ecs_family(ctx, thorough):
-    """Ecs.tla: forwarding clamp, scoped storage key, audience, TTL cap."""
+    """Ecs.tla: forwarding clamp, scoped storage key, audience, TTL cap, and the subnet the authority's option
+    names (Echoes: 0 = the one it was sent, k = client k's; RFC 7871 7.3 has a mismatching reply dropped)."""
+    # negative twin: the writer as built keys the answer on the ECHOED address and serves the asker; it must refute
+    # one of the two audience properties, or the echo dimension of the model is vacuous
+    r = ctx.tlc("Ecs", "MC_Ecs.tla", "MC_Ecs_echo_asbuilt.cfg", workers=4, timeout=600, heap="4g",
+                must_pass=False, count=False, tag="echo-as-built-must-fail")
+    if r.violated not in ("ScopedAudience", "DeclaredScopeAudience"):
+        raise vf.MachineryError("MC_Ecs_echo_asbuilt.cfg: expected an audience property to fail, got %r" % (r.violated,))
     for cfg, enabled, floor in (("floor16", True, 16), ("floor24", True, 24), ("off", False, 24)):
         ctx.tlc("Ecs", "MC_Ecs.tla", "MC_Ecs_%s.cfg" % cfg, workers=4, timeout=900, heap="6g")
         behs = ctx.tlc_behaviours("Ecs", "MC_Ecs.tla", "Sim_Ecs_%s.cfg" % cfg, num=250 if not thorough else 4000, depth=7)
@@ -18,11 +25,11 @@ def ecs_family(ctx, thorough):
         for b in behs:
             steps = []
             for lab, st in b[1:]:
-                m = re.match(r"Query\((\d+),\s*(\d+),\s*(\d+)\)", lab)
+                m = re.match(r"Query\((\d+),\s*(\d+),\s*(\d+),\s*(\d+)\)", lab)
                 if not m:
                     raise vf.MachineryError("unexpected label " + lab)
-                steps.append({"c": int(m.group(1)), "sent": int(m.group(2)), "scope": int(m.group(3)),
-                              "expHit": st["last"]["kind"] == "hit"})
+                steps.append({"c": int(m.group(1)), "sent": int(m.group(2)), "scope": int(m.group(3)), "echo": int(m.group(4)),
+                              "expHit": st["last"]["kind"] == "hit", "expKind": st["last"]["kind"]})
             if steps:
                 out.append({"steps": steps})
                 ctx._distinct.add("ecs:%s:%r" % (cfg, steps))
@@ -33,6 +40,9 @@ def ecs_family(ctx, thorough):
                                            "drift_notes": res.get("drift_notes", [])[:5], "counters": res.get("counters", {})}
         if res["cases"] == 0:
             raise vf.MachineryError("ecs replay ran no cases")
+        cnt = res.get("counters", {})
+        if enabled and cnt.get("echo_mismatch_scoped_exchanges", 0) < 5 and not res.get("violations"):
+            raise vf.MachineryError("vacuous: the authority hardly ever echoed another subnet with a non-zero scope (%s)" % cnt)
 
 
 def denial_family(ctx, thorough, focus=""):
@@ -71,8 +81,51 @@ def denial_family(ctx, thorough, focus=""):
         raise vf.MachineryError("vacuous: the shared cut was hardly ever used (%s)" % cnt)
 
 
+def resolver_scope_observation(ctx):
+    """OBSERVATION (logged, no verdict): the audience clause in resolver (iterative) mode.  resolver.answer() replaces a
+    positive answer's additional section with the request's OPT (subnet option, SCOPE 0), so the scope the authority
+    declared is lost and the subnet-specific answer is stored under the shared key.  Set C19_RESOLVER_SCOPE_STRICT=1 to
+    judge it (digest keys c19/resolver-scope-lost/<subnet>)."""
+    import os
+    judge = os.environ.get("C19_RESOLVER_SCOPE_STRICT") == "1"
+    res = ctx.go_driver("./c19", "TestResolverScopeObservation", {"judge": judge}, name="resolver_scope", timeout=300)
+    cnt = res.get("counters", {})
+    ctx.cov["replay"]["resolver_scope_observation"] = {"cases": res["cases"], "counters": cnt}
+    if res.get("skipped"):
+        ctx.log("resolver-scope observation skipped: %s" % res["skipped"][:2])
+        return
+    if judge:
+        ctx.take_driver_result(res, "[resolver scope] ")
+    elif cnt.get("scoped_answer_served_outside_its_scope", 0):
+        print("OBSERVATION property=C19 resolver mode with [ecs] enabled: an answer the authority scoped /24 to one subnet was "
+              "served from cache to %d client(s) outside it (scope lost in resolver.answer/clearAdditional); authorities that saw "
+              "the client subnet: %s" % (cnt["scoped_answer_served_outside_its_scope"],
+                                         sorted(k.split("/", 1)[1] for k in cnt if k.startswith("authority_saw_client_subnet/"))), flush=True)
+
+
+def replay_record(ctx, rec):
+    """--replay of a violation recorded by the Ecs driver: the recorded history alone."""
+    rp = rec.get("replay", rec)
+    if not isinstance(rp, dict) or rp.get("driver") != "ecs" or not rp.get("steps"):
+        return False
+    inp = {"enabled": rp["enabled"], "fwdMax": rp.get("fwdMax", 24), "floor": rp["floor"], "addrs": rp.get("addrs", ADDRS),
+           "behaviours": [{"steps": rp["steps"]}]}
+    res = ctx.go_driver("./c19", "TestEcsReplay", inp, name="ecs_replay_file", timeout=600)
+    ctx.take_driver_result(res, "[replay] ")
+    ctx.cov["states"] = max(1, ctx.cov["states"])
+    ctx.cov["transitions"] = max(1, ctx.cov["transitions"])
+    ctx.cov["replay"]["replayed_file"] = {"cases": res["cases"]}
+    return True
+
+
 def run(ctx, replay):
     thorough = ctx.tier == "thorough"
+    if replay:
+        import json
+        with open(replay) as f:
+            rec = json.load(f)
+        if sc.replay_record(ctx, rec, "C19") or replay_record(ctx, rec):
+            return
     ctx.cov["rule"] = ("cases = behaviours of Serve.tla's ecs and cookies families (ECS policy off/on/invalid x client "
                        "subnet option kinds x OPT shapes x upstream content incl. scoped answers), concretised and served "
                        "by the real default chain; the upstream query seen by the scripted tail and the client reply are "
@@ -81,7 +134,12 @@ def run(ctx, replay):
     sc.run_family_models(ctx, fams, thorough)
     sc.regression_model(ctx)
     sc.replay(ctx, "C19", fams, num=500 if not thorough else 6000, variants=2 if not thorough else 4)
+    # a request that arrives with TWO OPT records: every client option of every one of them is gone before the upstream
+    # query (tail and real forwarder + socket upstream); an upstream's subnet echo in a second OPT record never reaches
+    # the client
+    sc.relay_family(ctx, "C19", thorough)
     ecs_family(ctx, thorough)
+    resolver_scope_observation(ctx)
     denial_family(ctx, thorough)
     # forwarder mode: what leaves toward a configured upstream carries no client option except the clamped ECS (Forward.tla)
     ctx.overlay_tags.add("x11fw")
